@@ -4,6 +4,8 @@ import (
 	"fmt"
 	"time"
 
+	"github.com/bartossh/Computantis/src/spice"
+
 	"verifharness/core"
 	"verifharness/ledger"
 )
@@ -42,7 +44,7 @@ func c07Opts(w *core.WorkerCtx, k int) ledger.LongOpts {
 		o.MultiTip = true
 	case 3: // truncation racing with proposals; cut close to the minimum length
 		o.Race = true
-		o.Size = 1001 + rng.Intn(30)
+		o.Size = 1300 + rng.Intn(100)
 	}
 	if w.Thorough() && k%5 == 4 {
 		o.Nodes = 3
@@ -51,7 +53,53 @@ func c07Opts(w *core.WorkerCtx, k int) ledger.LongOpts {
 	return o
 }
 
+// c07Witness is the fixed scenario of the known finding balance-changed/side-tip: checkpoint funds are global, so a tip
+// that does not descend from the cut vertex sees the whole checkpoint after the truncation.
+func c07Witness(w *core.WorkerCtx) {
+	rng := core.Rand(w.Seed, "C07w")
+	desc := "c07 fixed witness: 1040-vertex chain plus one harness-sealed side tip on the 5th vertex, then truncation started from the main tip"
+	world := ledger.NewWorld(rng, w.R, []string{"C07"}, allSnapOracles, desc)
+	defer world.Close()
+	d, err := ledger.Setup(world, ledger.Profile{Nodes: 1, Users: 4, SupplyClass: 0, Delivery: "lockstep"})
+	if err != nil {
+		w.R.Inconc("witness setup failed: " + err.Error())
+		return
+	}
+	n := world.Nodes[0]
+	u := world.Users
+	var old ledger.H
+	var oldW uint64
+	world.Quiet = true
+	for i := 0; i < 1040; i++ {
+		t := world.NewTrx(u[0], u[1+i%3].Addr, spice.Melange{SupplementaryCurrency: uint64(1 + i%9)}, nil)
+		v, err := world.Propose(n, &t, "grow")
+		if err == nil && i == 4 {
+			old, oldW = v.Hash, v.Weight
+		}
+	}
+	world.Quiet = false
+	world.Observe(n, ledger.OpInfo{Kind: "milestone", OK: true})
+	st := world.NewTrx(u[0], u[3].Addr, spice.Melange{SupplementaryCurrency: 5}, nil)
+	side := ledger.ForgeVertex(world.Sealers[0], st, old, old, oldW+1, world.Now())
+	if err := world.Deliver(n, &side, "side tip on an old vertex"); err != nil {
+		w.R.Inconc("witness side tip refused: " + err.Error())
+		return
+	}
+	for attempt := 0; attempt < 12; attempt++ {
+		before := len(n.Prev.Stored)
+		world.TruncateChecked(n, d, false)
+		if len(n.Prev.Stored) > before {
+			break // the walk started from the main tip and moved something
+		}
+	}
+	world.NontrivFor("C07", "witness/side-tip")
+	w.R.Sample(5, map[string]any{"witness": desc, "checkpointed": len(n.Prev.Stored), "tips": len(n.Prev.Leaves)})
+}
+
 func c07Worker(w *core.WorkerCtx) {
+	if w.Batch == 0 {
+		c07Witness(w)
+	}
 	n := w.Pick(1, 3)
 	for k := 0; k < n; k++ {
 		longScenario(w, []string{"C07"}, k, c07Opts(w, k))
@@ -95,7 +143,7 @@ func c06Truncation(w *core.WorkerCtx) {
 	if w.Thorough() && w.Batch%8 != 0 {
 		return
 	}
-	longScenario(w, []string{"C06"}, 1000, ledger.LongOpts{Nodes: 2, Size: 1040, Truncations: 1, MultiTip: true, PostOps: 40})
+	longScenario(w, []string{"C06"}, 1000, ledger.LongOpts{Nodes: 1, Size: 1040, Truncations: 1, PostOps: 40})
 }
 
 func init() {
